@@ -313,6 +313,7 @@ func main() {
 		sp.Collide = i%4 != 3
 		sp.Homonyms = wantFiles > 0 && len(p.Files) == wantFiles
 		schemagen.AddServices(r.Fork(), p, sp)
+		schemagen.AddStreaming(r.Fork(), p)
 		progs = append(progs, p)
 		for oi, o := range sets {
 			if *tier != "thorough" && oi > 0 && i%2 == 0 {
@@ -325,7 +326,7 @@ func main() {
 		}
 	}
 	st.Programs = len(progs)
-	if err := b.Generate(); err != nil {
+	if err := b.GenerateWith(func(u *gendrv.Unit) map[string]string { return u.Prog.RenderS() }); err != nil {
 		fmt.Fprintln(os.Stderr, "generate:", err)
 		os.Exit(1)
 	}
@@ -337,6 +338,12 @@ func main() {
 		}
 	}
 	st.RejectedByImpl = len(rejectedProg)
+	if len(b.Rejected) > 0 {
+		// every generated program is inside what thriftgo accepts; a rejection means the compiler changed
+		fmt.Fprintln(os.Stderr, "thriftgo rejected a program of the valid envelope:", b.Rejected[0].Unit.Key, firstLine(b.Rejected[0].Output))
+		fmt.Fprintln(os.Stderr, b.Rejected[0].Output)
+		os.Exit(1)
+	}
 	if err := b.WriteServiceGlue(); err != nil {
 		fmt.Fprintln(os.Stderr, "service glue:", err)
 		os.Exit(1)
@@ -467,6 +474,19 @@ func main() {
 			}
 		}
 	}
+	type namesCase struct {
+		prog int
+		unit *gendrv.Unit
+		svc  string
+		cmd  int
+	}
+	var namesCases []*namesCase
+	for _, u := range b.Units {
+		for _, sv := range u.Prog.Services() {
+			namesCases = append(namesCases, &namesCase{prog: progIndex[u.Prog.Key], unit: u, svc: sv.QName(), cmd: len(cmds)})
+			cmds = append(cmds, gendrv.Cmd{Verb: "rpcnames", Args: []string{u.Key, sv.QName()}})
+		}
+	}
 	results, err := b.Run(cmds)
 	if err != nil {
 		fmt.Fprintln(os.Stderr, "run:", err)
@@ -579,7 +599,8 @@ func main() {
 				"From Coq Require Import List NArith ZArith String.\nImport ListNotations.\nOpen Scope string_scope.\n" +
 				coqfmt.FastPreamble +
 				"Definition E0 : env := " + p.Coq() + ".\n" +
-				"Definition SS : list service := " + p.CoqServices() + ".\n" +
+				"Definition SRC : list service_src := " + p.CoqServicesSrc() + ".\n" +
+				"Definition SS : list service := Eval vm_compute in map effective SRC.\n" +
 				"Definition mismatches := mismatches_top E0 SS.\n"
 			writers[pi] = casefile.New(dir, pre, 90)
 		}
@@ -697,6 +718,23 @@ func main() {
 		js, _ := json.Marshal(sc.calls)
 		distinct[sha256.Sum256([]byte(sc.unit.Key+sc.csvc+sc.psvc+string(js)))] = nontrivial
 	}
+	for _, nc := range namesCases {
+		p := progs[nc.prog]
+		w := getW(nc.prog)
+		var o struct {
+			Names []string `json:"names"`
+		}
+		json.Unmarshal(results[nc.cmd], &o)
+		var ns []string
+		for _, n := range o.Names {
+			ns = append(ns, coqfmt.BytesF(n))
+		}
+		w.Add(fmt.Sprintf("(CNames %s %s)", coqfmt.BytesF(nc.svc), coqfmt.List(ns)),
+			map[string]interface{}{"kind": "names", "seq_kind": "processor_map", "unit": nc.unit.Key, "options": nc.unit.Options, "processor": nc.svc,
+				"program": p, "idl": p.RenderS(), "observed": json.RawMessage(results[nc.cmd])})
+		st.SeqKinds["processor_map"]++
+		distinct[sha256.Sum256([]byte("names"+nc.unit.Key+nc.svc))] = len(o.Names) >= 2
+	}
 	for _, rc := range raws {
 		p := progs[rc.prog]
 		w := getW(rc.prog)
@@ -737,7 +775,7 @@ func main() {
 	}
 	for i, p := range progs {
 		if i < 2 {
-			st.Samples = append(st.Samples, map[string]interface{}{"program": p.Key, "idl": p.Render()})
+			st.Samples = append(st.Samples, map[string]interface{}{"program": p.Key, "idl": p.RenderS()})
 		}
 	}
 	for _, sc := range seqs {
